@@ -170,13 +170,6 @@ theorem extract_of_split (s : Str) (segs : List Str) (h : splitOnChar '/' s = se
 /-- a denomination is *path-stable* when parsing its path returns it -/
 def PathStable (d : Denom) : Prop := extract d.path = d
 
-/-- a base denomination is *hop-free* when its second '/'-segment (if any) is not channel/client
-    formatted: then no prefix of hops can make `ExtractDenomFromPath` split it -/
-def hopFreeBase (base : Str) : Bool :=
-  match splitOnChar '/' base with
-  | _ :: c :: _ => !isHopId c
-  | _ => true
-
 theorem extractGo_true_of_hopFree (base : Str) (h : hopFreeBase base = true) :
     extractGo true (splitOnChar '/' base) = ([], splitOnChar '/' base) := by
   unfold hopFreeBase at h
